@@ -219,5 +219,15 @@ func VerifC07Subscribe(v *verifrt.T) {
 		want = wantLimit
 	}
 	v.Assert(uint64(len(sock.writes)) == want, "C07.subscribe.every-returned-message-sent-before-ack")
+	// a repeated SUBSCRIBE for a channel the connection already holds (e.g. to fetch again with
+	// another last=N) is a subscription accepted with load permission like the first one
+	before := len(sock.writes)
+	err = e.ps.OnSubscribe(conn, append([]byte(nil), topic...))
+	v.Assert(err == nil, "C07.resubscribe.accepted")
+	v.Assert(len(e.store.queries) == 2, "C07.resubscribe.history-queried-again")
+	if len(e.store.queries) == 2 {
+		v.Assert(e.store.queries[1].limit == q.limit, "C07.resubscribe.same-limit")
+	}
+	v.Assert(uint64(len(sock.writes)-before) == want, "C07.resubscribe.messages-sent-again")
 	v.Observe("sent", uint64(len(sock.writes)))
 }
